@@ -376,7 +376,7 @@ func rulesParseErrorContinues(c *Ctx, r *Report) {
 			obj := identObj(info, arg)
 			fromParse := false
 			for _, rhs := range defsOf(y.f, obj) {
-				if fo := calleeOfExpr(info, rhs); fo != nil && fo.Pkg() == y.f.pkg.Types && fo.Name() == "parseLine" {
+				if fo := calleeOfExpr(info, rhs); fo != nil && fo.Pkg() == y.f.pkg.Types && fo.Type().(*types.Signature).Recv() == nil && fo.Type().(*types.Signature).Results().Len() == 2 && fo.Type().(*types.Signature).Params().Len() == 1 {
 					fromParse = true
 				}
 			}
